@@ -11,9 +11,73 @@ use serde_json::Value;
 use std::io::{BufRead, Write};
 use std::panic::{catch_unwind, AssertUnwindSafe};
 
+/// size-driven structures; every text is cut to the property's 4 KiB (at a character boundary)
+fn generated(kind: &str, n: usize) -> String {
+    let mut s = String::new();
+    let cap = 4096usize;
+    match kind {
+        "layers" => {
+            // layer i has modules A<i> and B<i>; each imports both modules of layer i-1
+            s.push_str("defmodule A0 {\nexport: all\n}\ndefmodule B0 {\nexport: all\n}\n");
+            for i in 1..=n {
+                for m in ["A", "B"] {
+                    let blk = format!("defmodule {m}{i} {{\nimport: A{p} (rules)\nimport: B{p} (rules)\n}}\n", m = m, i = i, p = i - 1);
+                    if s.len() + blk.len() > cap - 60 {
+                        break;
+                    }
+                    s.push_str(&blk);
+                }
+            }
+            s.push_str("rule \"R\" { when A.x > 1 then A.y = 2; }\n");
+        }
+        "andchain" | "orchain" => {
+            let op = if kind == "andchain" { " && " } else { " || " };
+            let terms: Vec<String> = (0..n).map(|i| format!("A.x != {}", i)).collect();
+            s = format!("rule \"R\" {{ when {} then A.y = 2; }}", terms.join(op));
+        }
+        "notchain" => s = format!("rule \"R\" {{ when {}(A.x > 1){} then A.y = 2; }}", "!(".repeat(n.min(1300)), ")".repeat(n.min(1300))),
+        "parens" => s = format!("rule \"R\" {{ when {}A.x > 1{} && (A.y == 2 || (A.z < 3)) then A.y = ({}A.x + 1{}) * 2; }}",
+                                "(".repeat(n.min(32)), ")".repeat(n.min(32)), "(".repeat(n.min(32)), ")".repeat(n.min(32))),
+        "manyrules" => {
+            for i in 0..n {
+                let r = format!("rule \"R{}\" salience {} {{ when A.x > {} then A.y = {}; }}\n", i, i % 7, i, i);
+                if s.len() + r.len() > cap { break; }
+                s.push_str(&r);
+            }
+        }
+        "manyacts" => {
+            let acts: Vec<String> = (0..n).map(|i| format!("A.f{} = A.f{} + {};", i, i, i)).collect();
+            s = format!("rule \"R\" {{ when A.x > 1 then {} }}", acts.join(" "));
+        }
+        "longstring" => s = format!("rule \"R\" {{ when A.s == \"{}\" then A.t = \"{}\"; }}", "xy ".repeat(n), "é".repeat(n)),
+        "arith" => {
+            let terms: Vec<String> = (0..n).map(|i| format!("A.x {} {}", ["+", "-", "*", "/", "%"][i % 5], i + 1)).collect();
+            s = terms.join(" + ");
+        }
+        "manyattrs" => s = format!("rule \"R\" {} {{ when A.x > 1 then A.y = 2; }}", "salience 1 no-loop true lock-on-active true agenda-group \"g\" ".repeat(n)),
+        _ => {
+            // querychain: a query block whose goal is a long conjunction / disjunction, and a nested WHERE chain
+            let terms: Vec<String> = (0..n).map(|i| format!("A.x{} == {}", i, i)).collect();
+            s = format!("query \"Q\" {{\n goal: {}\n on-success: {{ A.y = 1; }}\n}}\n{}", terms.join(if n % 2 == 0 { " && " } else { " || " }),
+                        (0..n.min(40)).map(|i| format!("p{}(?x) WHERE (", i)).collect::<String>() + "q(?x)" + &")".repeat(n.min(40)));
+        }
+    }
+    if s.len() > cap {
+        let mut k = cap;
+        while !s.is_char_boundary(k) {
+            k -= 1;
+        }
+        s.truncate(k);
+    }
+    s
+}
+
 pub fn text_of(l: &Value) -> String {
+    if let Some(kind) = l["gen"].as_str() {
+        return generated(kind, l["size"].as_u64().unwrap_or(1) as usize);
+    }
     let sep = l["sep"].as_str().unwrap_or(" ");
-    let mb = |t: &str| t.replace("<MB2>", "é").replace("<MB3>", "日").replace("<NUL>", "\u{0}").replace("<NL>", "\n").replace("<TAB>", "\t");
+    let mb = |t: &str| t.replace("<MB2>", "é").replace("<MB3>", "日").replace("<NUL>", "\u{0}").replace("<NL>", "\n").replace("<TAB>", "\t").replace("<KEL>", "\u{212A}").replace("<IDOT>", "\u{130}");
     let toks: Vec<String> = l["toks"].as_array().unwrap().iter().map(|t| mb(t.as_str().unwrap())).collect();
     let body = toks.join(sep);
     let n = l["n"].as_u64().unwrap_or(0) as usize;
